@@ -65,6 +65,16 @@ def jFields (h : MrcFields) : Json :=
   Json.mkObj [("nxyz", jNats h.nxyz), ("mode", jNat h.mode), ("nstart", jInts h.nstart), ("mxyz", jNats h.mxyz),
     ("cella", jRats h.cella), ("mapcrs", jNats h.mapcrs), ("origin", jRats h.origin), ("nsymbt", jNat h.nsymbt)]
 
+def optInt (j : Json) : Except String (Option Int) :=
+  match j with
+  | Json.null => pure none
+  | _ => do pure (some (← j.getInt?))
+
+def getSlice (j : Json) : Except String PySlice := do
+  match (← j.getArr?).toList with
+  | [a, b, c] => pure ⟨← optInt a, ← optInt b, ← optInt c⟩
+  | _ => throw "BadArg:slice"
+
 def handle (op : String) (a : Json) : Option R :=
   match op with
   | "c08.emEncode" => some do
@@ -89,9 +99,11 @@ def handle (op : String) (a : Json) : Option R :=
           | _ => throw "BadArg:box"))
       let raw := (getBool a "raw").toOption.getD false
       let pad := (getBool a "mrcpad").toOption.getD false
+      let exact := (getBool a "exact").toOption.getD false    -- truncated files: short reads as coded
       pure (jList (boxes.map (fun bx =>
         let bx := if pad then mrcPadBox bx sh else bx
-        jArrRes (if raw then readSubset f hdr sh b bx else loadSubset f hdr sh b bx))))
+        jArrRes (if exact then (if raw then readSubsetExact f hdr sh b bx else loadSubsetExact f hdr sh b bx)
+          else if raw then readSubset f hdr sh b bx else loadSubset f hdr sh b bx))))
   | "c08.emWrite" => some do
       -- what `_save_em` writes for a density held as `dtype`: the dtype on disk, its type code and item size
       let dt ← getStr a "dtype"
@@ -143,5 +155,50 @@ def handle (op : String) (a : Json) : Option R :=
       | .ok p => pure (Json.mkObj [("shape", jNats p.shape), ("origin", jRats p.origin), ("rate", jRats p.rate),
           ("header", jNat p.header), ("crs", jNats p.crs)])
       | .err e => pure (Json.mkObj [("raised", jStr e)])
+  | "c08.sliceReq" => some do
+      -- the `subset` argument as python slices ([start|null, stop|null, step|null] each), one file, many requests
+      let fmt ← getStr a "fmt"
+      let sh ← getNatList a "shape"
+      let reqs ← (← getArr a "reqs").toList.mapM (fun rj => do (← rj.getArr?).toList.mapM getSlice)
+      if fmt == "h5" then
+        let d ← getNatList a "data"
+        pure (jList (reqs.map (fun sl => jArrRes (pySliceArr ⟨sh, d.toArray⟩ sl))))
+      else
+        let f ← fromHex (← getStr a "file")
+        let hdr ← getNat a "header"; let b ← getNat a "b"
+        pure (jList (reqs.map (fun sl =>
+          jArrRes (if fmt == "em" then emLoadSlices f hdr sh b sl else mrcLoadSlices f hdr sh b sl))))
+  | "c08.mrcModes" => some do
+      let modes ← getNatList a "modes"; let dts := (← getArr a "dtypes").toList.filterMap (fun j => j.getStr?.toOption)
+      pure (Json.mkObj [
+        ("modes", jList (modes.map (fun m => match mrcModeDtype m, mrcModeSize m with
+          | some d, some b => jList [jNat m, jStr d, jNat b]
+          | _, _ => jList [jNat m, Json.null, Json.null]))),
+        ("dtypes", jList (dts.map (fun d => match mrcModeOfDtype d with
+          | some m => jList [jStr d, jNat m]
+          | none => jList [jStr d, Json.null])))])
+  | "c08.mrcReadCrs" => some do
+      match mrcReadCrs (← getFields a) with
+      | .ok p => pure (Json.mkObj [("shape", jNats p.shape), ("origin", jRats p.origin), ("rate", jRats p.rate),
+          ("header", jNat p.header), ("crs", jNats p.crs)])
+      | .err e => pure (Json.mkObj [("raised", jStr e)])
+  | "c08.emSubsetAny" => some do
+      let f ← fromHex (← getStr a "file")
+      let boxes ← (← getArr a "boxes").toList.mapM (fun bj => do
+        let l ← (← bj.getArr?).toList.mapM (fun x => do intList (← x.getArr?))
+        l.mapM (fun p => match p with
+          | [s, e] => pure (s, e)
+          | _ => throw "BadArg:box"))
+      pure (Json.mkObj [("b", jNat (emReadItemsize (f.getD 3 0))), ("res", jList (boxes.map (fun bx => jArrRes (emLoadSubsetAny f bx))))])
+  | "c08.effMemmap" => some do
+      pure (jBool (effMemmap (← fromHex (← getStr a "head")) (← getBool a "memmap")))
+  | "c08.emRate" => some do
+      let rs ← getRatList a "rates"
+      pure (jList (rs.map (fun q => Json.mkObj [("milli", jInt (emRateMilliOf q)), ("read", jRat (emRateRead (emRateMilliOf q)))])))
+  | "c08.emHeaderLen" => some do
+      let sh ← getNatList a "shape"
+      pure (Json.mkObj [("len", jNat (emHeaderLen sh.length)), ("written", jNat (emHeader 5 sh 1000).length),
+        ("parsedShape", match emParse (emEncode 5 4 sh 1000 (List.replicate (prodL sh) 0)) with
+          | some p => jNats p.shape | none => Json.null)])
   | _ => none
 end Drv.C08
